@@ -37,7 +37,12 @@ func newIndividualNode(document *Document, pointer string, children ...Node) *In
 // if any node has changed since they were calculated.
 func (node *IndividualNode) validateCache() {
 	if generation := currentEditGeneration(); node.cacheGeneration != generation {
-		node.resetCache()
+		// Nothing is written when nothing has been cached yet so that several
+		// goroutines reading a new document do not undo each others work.
+		if node.cachedFamilies || node.cachedSpouses || node.cachedUniqueIDs != nil {
+			node.resetCache()
+		}
+
 		node.cacheGeneration = generation
 	}
 }
